@@ -33,6 +33,9 @@ The correspondence run (harness/src/c18.rs, harness/src/c18_net.rs, Drv/C18.lean
 `isSccPartition` (`isSccPartition_sound_complete`) to the model's and to the implementation's output on
 every well-formed case of at most 48 vertices; that part is testing, not proof.
 -/
+import Compass.Gen.Decisions
+import Compass.Proofs.Num
+import Compass.Model.Scc
 import Compass.Proofs.Scc
 import Compass.Proofs.SccNet
 
@@ -434,6 +437,27 @@ example : (match ({ adj := [[(9, 0)]], rev := [[]], edges := [], vertices := [âŸ
       Compass.Graph Nat).incidentTripletAttributes 0 .forward with
     | .error (.edgeNotFound 9) => true
     | _ => false) = true := by decide
+
+end C18
+end Compass
+
+namespace Compass
+namespace C18
+open Src
+
+/-! ### Source decision ties
+
+The relational operators at the named comparison sites of the Rust source are re-extracted on every run
+by `tools/gen_model.py` into `Compass/Gen/Decisions.lean` (`Src.<site> : Src.Rel`).  Each theorem below
+says that the hand-written model decides at that site by exactly the operator the source has there
+(`Rel.nat` / `Rel.int` / `Rel.num` interpret the extracted operator; an unrecognised line is `none`).  A
+source change that turns `<` into `<=`, `>` into `>=`, â€¦ at a site changes the generated constant and this
+proof obligation stops checking, whether or not a generated case lands on the tie. -/
+
+theorem src_scc_largest (cs : List (List Nat)) :
+    Scc.largestOf cs =
+      cs.foldl (fun best c => if scc_largest.nat c.length best.length = some true then c else best) [] := by
+  simp [Scc.largestOf, scc_largest, Rel.nat]
 
 end C18
 end Compass
